@@ -239,8 +239,16 @@ func (e *Engine) oblige(st *State, kind, goal string, p token.Pos, desc string) 
 	}
 	n := e.cnt[k]
 	e.cnt[k] = n + 1
+	prop := e.c.primary()
+	for _, cl := range e.c.Claims {
+		// `claim[Cxx] TEXT`: a safety obligation whose name contains TEXT is claimed by property Cxx although the
+		// unit's other safety obligations are not (the unit's first property is the unclaimed bucket)
+		if strings.Contains(k, cl.Text) {
+			prop = cl.Prop
+		}
+	}
 	o := &Oblig{Name: fmt.Sprintf("%s.%s/%s#%d", pkgShort(e.pk.Path), e.c.Name, k, n), Unit: e.c.Name, Kind: kind, Pos: e.pos(p),
-		PC: st.pc, Goal: goal, NAssumes: len(e.assumes), NDecls: len(e.decls), Desc: desc, Prop: e.c.primary()}
+		PC: st.pc, Goal: goal, NAssumes: len(e.assumes), NDecls: len(e.decls), Desc: desc, Prop: prop}
 	e.obligs = append(e.obligs, o)
 }
 
